@@ -6,6 +6,7 @@ compared with exact rational / extended-precision references; the continuum
 relations of the statement are checked on grid-refinement sequences against
 analytic columns.
 """
+import functools
 import itertools
 from fractions import Fraction
 
@@ -19,16 +20,23 @@ from checks import c14_exact as ex
 
 RULE = ("profiles: every selection of 2..N levels (decreasing pressure) of 6 "
         "pressure nodes x every profile over the alphabet on those levels: "
-        "vmr in {0,1e-6,1e-3,0.04} for both IWV forms (N=4 quick, 5 thorough; "
-        "plus blocks of 3 profiles as rank-2 input, both axes, both signs); "
-        "T in {220, Tt-23, 262, Tt, 285, 300} for CRH with q = a*q_sat, a in "
-        "{1,.5,.1,0} and a non-saturated q scaled by {.5,.1} (N=3 quick, 4 "
-        "thorough; plus rank-2 blocks); T in {180,250,320} or None for "
+        "vmr in {0,1e-6,1e-3,0.04} for both IWV forms (N=4 quick, 5 "
+        "thorough); T in {220, Tt-23, 262, Tt, 285, 300} for CRH with q = "
+        "a*q_sat, a in {1,.5,.1,0} and a non-saturated q scaled by {.5,.1} "
+        "(N=3 quick, 4 thorough). The same profiles as columns of rank-2 "
+        "(n x 3) and rank-3 (n x 2 x 3) input: one case = (level set, block of 3 or 6 "
+        "profiles, rank, position of the level axis, axis sign, pressure "
+        "1-D | of the input's shape); the call with axis position 0 given "
+        "positively is repeated with axis left to its default; the general "
+        "IWV form runs where its level arrays broadcast (full shape, or 1-D "
+        "with the levels last). T in {180,250,320} or None for "
         "pressure2height (N=5); the 8 ISA levels and all 247 selections of "
-        ">=2 of them; refinement sequences 10,20,..,1280(,10^4) levels, "
-        "linear and logarithmic in p, for T0 x lapse x vmr0 x decay "
-        "lattices. Non-trivial = humidity not identically zero (IWV, CRH), "
-        ">=3 levels (pressure2height), every ISA and refinement case.")
+        ">=2 of them; isothermal columns T0 in {180,250,320} given as array | "
+        "float | int on refinement sequences 10,20,..,1280,10^4 levels, "
+        "linear and logarithmic in p; IWV refinement sequences 10..1280 "
+        "levels for T0 x lapse x vmr0 x decay lattices. Non-trivial = "
+        "humidity not identically zero (IWV, CRH), >=3 levels "
+        "(pressure2height), every ISA and refinement case.")
 ASSUMPTIONS = [
     "IWV / CRH / pressure2height are decided on the listed level sets and "
     "profile alphabets and on analytic columns T = T0 - lapse*ln(p0/p), "
@@ -38,8 +46,9 @@ ASSUMPTIONS = [
     "saturated profile uses q = 0.622 e/(p - 0.378 e) as documented, and a "
     "result within 2|0.622 Md/Mw - 1| of 1 is accepted so that the exact "
     "molar-mass ratio would pass as well",
-    "rank-2 input of column_relative_humidity and integrate_water_vapor is "
-    "checked with 1-D pressure only",
+    "rank-2/3 input of column_relative_humidity and integrate_water_vapor: "
+    "pressure 1-D or of the input's shape (not size-1-broadcast shapes), "
+    "temperature of the input's shape, C-contiguous float64",
     "the ISA table (8 levels: geopotential height, pressure, temperature) is "
     "taken from the published standard, not from typhon",
 ]
@@ -62,6 +71,9 @@ T_P2H = (180.0, 250.0, 320.0)
 MAXLEV = dict(iwv=dict(quick=4, thorough=5), crh=dict(quick=3, thorough=4),
               p2h=dict(quick=5, thorough=5))
 STRIDE = 37
+OTHER = {2: (3,), 3: (2, 3)}            # extents of the non-level axes
+NCOL = {rank: int(np.prod(other)) for rank, other in OTHER.items()}
+P_FORMS = ("1d", "full")
 
 # Either definition of the molar-mass ratio in the saturation humidity.
 TOL_SAT = 2 * abs(0.622 * MD / MW - 1)
@@ -94,14 +106,48 @@ def pick(nodes, idx):
     return np.array([nodes[i] for i in idx])
 
 
-def columns(profiles, block, ncol=3):
+def columns(profiles, block, ncol):
     return [profiles[((block * ncol + c) * STRIDE) % len(profiles)]
             for c in range(ncol)]
 
 
-def stack(cols, pos):
-    a = np.array(cols, dtype=float)           # (ncol, n)
-    return a.T.copy() if pos == 0 else a
+def embed(cols, rank, pos):
+    """Array of shape other[:pos] + (n,) + other[pos:], other = OTHER[rank],
+    whose c-th column (C order over `other`) along axis `pos` is cols[c]."""
+    a = np.array(cols, dtype=float).reshape(OTHER[rank] + (-1,))
+    return np.moveaxis(a, -1, pos).copy()
+
+
+def along(levels, shape, pos):
+    """The 1-D level array repeated to `shape`, varying along axis `pos`."""
+    to = [1] * len(shape)
+    to[pos] = -1
+    return np.broadcast_to(levels.reshape(to), shape).copy()
+
+
+def axis_calls(func, args, rank, pos, negative):
+    """func(*args, axis=...) and, where that axis is the default one written
+    positively, the same call without `axis` -> [(label, values in column
+    order, observed)]; values is None for a mis-shaped result and for an
+    exception raised on the way (to be reported like a wrong value of this
+    layout, whose root cause it shares)."""
+    axis = pos - rank if negative else pos
+    calls = [("axis=%d" % axis, dict(axis=axis))]
+    if pos == 0 and not negative:
+        calls.append(("axis omitted", {}))
+    out = []
+    for label, kwargs in calls:
+        try:
+            got = ex.call(func, *args, **kwargs)
+        except ex.Raised as e:
+            out.append((label, None, e.text))
+            continue
+        if np.shape(got) != OTHER[rank]:
+            out.append((label, None, "shape %r" % (np.shape(got),)))
+        else:
+            out.append((label, [got[i] for i in np.ndindex(*OTHER[rank])],
+                        got))
+    return out
 
 
 # --------------------------------------------------------------------------
@@ -113,6 +159,12 @@ def q_exact(vmr):
     return x / ((1 - x) * Fraction(MD) / Fraction(MW) + x)
 
 
+@functools.lru_cache(None)
+def iwv_profiles(n):
+    return list(itertools.product(VMR, repeat=n))
+
+
+@functools.lru_cache(None)
 def iwv_hydrostatic_ref(idx, vmr):
     p = ex.fractions(P_NODES[i] for i in idx)
     return -ex.trapezoid(p, [q_exact(v) for v in vmr]) / Fraction(G)
@@ -139,9 +191,7 @@ def check_iwv(idx, vmr):
     if not ex.close(got, ref, iwv_tol(ref, n)):
         return ("integrate_water_vapor/differs-for-integer-pressure",
                 float(ref), got, "p given as an int64 array")
-    rho = [Fraction(v) * Fraction(pi) / (Fraction(RV) * Fraction(ti))
-           for v, pi, ti in zip(vmr, p.tolist(), t.tolist())]
-    ref = ex.trapezoid(ex.fractions(z.tolist()), rho)
+    ref = iwv_general_ref(idx, vmr)
     got = ex.call(atm().integrate_water_vapor, np.array(vmr), p, t, z)
     if not got >= 0:
         return ("integrate_water_vapor/negative", ">= 0", got, "general")
@@ -150,32 +200,38 @@ def check_iwv(idx, vmr):
     return None
 
 
-def check_iwv_2d(idx, block, pos, negative):
-    cols = columns(list(itertools.product(VMR, repeat=len(idx))), block)
-    got = ex.call(atm().integrate_water_vapor, stack(cols, pos),
-                  pick(P_NODES, idx), axis=pos - 2 if negative else pos)
-    refs = [iwv_hydrostatic_ref(idx, c) for c in cols]
-    if np.shape(got) != (len(cols),) or not all(
-            ex.close(g, r, iwv_tol(r, len(idx))) for g, r in zip(got, refs)):
-        return ("integrate_water_vapor/axis", [float(r) for r in refs], got,
-                "")
-    # the general form (vmr, p, T, z) on the same block: level arrays 1-D
-    # when the levels are the last axis, full-shape otherwise
-    a = stack(cols, pos)
-    p, t, z = pick(P_NODES, idx), pick(T_NODES, idx), pick(Z_NODES, idx)
-    if pos == 0:
-        p, t, z = (np.broadcast_to(v[:, None], a.shape).copy()
-                   for v in (p, t, z))
-    got = ex.call(atm().integrate_water_vapor, a, p, t, z,
-                  axis=pos - 2 if negative else pos)
-    pl, tl, zl = (pick(n, idx).tolist() for n in (P_NODES, T_NODES, Z_NODES))
-    refs = [ex.trapezoid(ex.fractions(zl), [
-        Fraction(v) * Fraction(pi) / (Fraction(RV) * Fraction(ti))
-        for v, pi, ti in zip(c, pl, tl)]) for c in cols]
-    if np.shape(got) != (len(cols),) or not all(
-            ex.close(g, r, iwv_tol(r, len(idx))) for g, r in zip(got, refs)):
-        return ("integrate_water_vapor/general-form-axis",
-                [float(r) for r in refs], got, "")
+@functools.lru_cache(None)
+def iwv_general_ref(idx, vmr):
+    p, t, z = (ex.fractions(nodes[i] for i in idx)
+               for nodes in (P_NODES, T_NODES, Z_NODES))
+    rho = [Fraction(v) * pi / (Fraction(RV) * ti)
+           for v, pi, ti in zip(vmr, p, t)]
+    return ex.trapezoid(z, rho)
+
+
+def check_iwv_nd(idx, rank, block, pos, negative, pform):
+    iwv = atm().integrate_water_vapor
+    cols = columns(iwv_profiles(len(idx)), block, NCOL[rank])
+    a = embed(cols, rank, pos)
+    p, t, z = (pick(nodes, idx) for nodes in (P_NODES, T_NODES, Z_NODES))
+    if pform == "full":
+        p, t, z = (along(v, a.shape, pos) for v in (p, t, z))
+    forms = [("hydrostatic", (a, p), iwv_hydrostatic_ref)]
+    # the general form multiplies vmr by a density of p and T: 1-D level
+    # arrays broadcast against vmr only if the levels are the last axis
+    if pform == "full" or pos == rank - 1:
+        forms.append(("general", (a, p, t, z), iwv_general_ref))
+    for form, args, reference in forms:
+        refs = [reference(idx, c) for c in cols]
+        for label, vals, got in axis_calls(iwv, args, rank, pos, negative):
+            if vals is None or not all(
+                    ex.close(g, r, iwv_tol(r, len(idx)))
+                    for g, r in zip(vals, refs)):
+                what = "default-axis" if label == "axis omitted" else \
+                    "axis" if form == "hydrostatic" else "general-form-axis"
+                return ("integrate_water_vapor/" + what,
+                        [float(r) for r in refs], got,
+                        "%s form, %s, shape %r" % (form, label, a.shape))
     return None
 
 
@@ -205,10 +261,18 @@ def e_mixed(t):
     return alpha * e_liquid(t) + (1 - alpha) * e_ice(t)
 
 
-def q_saturated(temps, p):
+@functools.lru_cache(None)
+def crh_profiles(n):
+    return list(itertools.product(T_CRH, repeat=n))
+
+
+@functools.lru_cache(None)
+def q_saturated(temps, idx):
+    """Saturation specific humidity at the levels idx (shared: callers hand
+    typhon arrays derived from it, never the cached array itself)."""
     return np.array([float(LD("0.622") * e_mixed(t)
-                           / (LD(pi) - LD("0.378") * e_mixed(t)))
-                     for t, pi in zip(temps, p)])
+                           / (LD(P_NODES[i]) - LD("0.378") * e_mixed(t)))
+                     for t, i in zip(temps, idx)])
 
 
 def crh_linear_tol(n):
@@ -221,7 +285,7 @@ def check_crh(idx, temps):
     crh = atm().column_relative_humidity
     n = len(idx)
     p, t = pick(P_NODES, idx), np.array(temps)
-    qs = q_saturated(temps, p)
+    qs = q_saturated(temps, idx)
     for a in SCALES:
         got = ex.call(crh, a * qs, p.copy(), t.copy())
         if not abs(got - a) <= TOL_SAT * a:
@@ -240,22 +304,21 @@ def check_crh(idx, temps):
     return None
 
 
-def check_crh_2d(idx, block, pos, negative):
-    cols = columns(list(itertools.product(T_CRH, repeat=len(idx))), block)
+def check_crh_nd(idx, rank, block, pos, negative, pform):
+    cols = columns(crh_profiles(len(idx)), block, NCOL[rank])
     p = pick(P_NODES, idx)
-    q = stack([q_saturated(c, p) for c in cols], pos)
-    try:
-        got = ex.call(atm().column_relative_humidity, q, p, stack(cols, pos),
-                      axis=pos - 2 if negative else pos)
-    except ex.Raised as e:
-        # Raised by the level loop itself: same root cause as a wrong value.
-        if "/column_relative_humidity/" not in e.key:
-            raise
-        got = e.text
-    if np.shape(got) != (len(cols),) or \
-            not np.all(np.abs(got - 1) <= TOL_SAT):
-        return ("column_relative_humidity/rank2-saturated-not-1",
-                [1.0] * len(cols), got, "shape %r" % (q.shape,))
+    q = embed([q_saturated(c, idx) for c in cols], rank, pos)
+    if pform == "full":
+        p = along(p, q.shape, pos)
+    for label, vals, got in axis_calls(
+            atm().column_relative_humidity, (q, p, embed(cols, rank, pos)),
+            rank, pos, negative):
+        if vals is None or not all(abs(v - 1) <= TOL_SAT for v in vals):
+            what = "default-axis" if label == "axis omitted" else \
+                "full-shape-pressure" if pform == "full" else \
+                "rank%d-saturated-not-1" % rank
+            return ("column_relative_humidity/" + what, [1.0] * len(cols),
+                    got, "%s, shape %r" % (label, q.shape))
     return None
 
 
@@ -369,15 +432,20 @@ def decreasing(seq):
     return all(b < a for a, b in zip(seq, seq[1:]))
 
 
-def check_isothermal(t0, kind):
-    """z -> (R T / g) ln(p0 / p) under refinement of the pressure grid."""
+T_FORMS = dict(array=lambda t0, n: np.full(n, t0), float=lambda t0, n: t0,
+               int=lambda t0, n: int(t0))
+
+
+def check_isothermal(t0, kind, tform):
+    """z -> (R T / g) ln(p0 / p) under refinement of the pressure grid; the
+    temperature of the column as an array or as one number."""
     # A grid linear in p is too coarse in ln p near 1 hPa to be a refinement
     # of the upper layers; it stops at 50 hPa.
     p0, ptop = P_SURFACE, 5000.0 if kind == "linear" else 100.0
     errors = []
     for n in LEVELS + (10 ** 4,):
         p = pressure_grid(kind, n, p0, ptop)
-        z = ex.call(atm().pressure2height, p, np.full(n, t0))
+        z = ex.call(atm().pressure2height, p, T_FORMS[tform](t0, n))
         ref = LD(RD) * LD(t0) / LD(G) * np.log(LD(p0) / p.astype(LD))
         if np.shape(z) != (n,):
             return ("pressure2height/shape", (n,), np.shape(z), "")
@@ -388,7 +456,7 @@ def check_isothermal(t0, kind):
         if n <= LEVELS[-1]:
             # stored top-down: z = (R T / g) ln(p_top / p) <= 0
             zt = ex.call(atm().pressure2height, p[::-1].copy(),
-                         np.full(n, t0))
+                         T_FORMS[tform](t0, n))
             reft = LD(RD) * LD(t0) / LD(G) * np.log(
                 LD(p[-1]) / p[::-1].astype(LD))
             if np.shape(zt) != (n,) or zt[0] != 0 or \
@@ -501,8 +569,8 @@ def check_iwv_refinement(t0, lapse, vmr0, decay, kind):
 # shards
 # --------------------------------------------------------------------------
 
-CHECKS = dict(iwv=check_iwv, iwv2d=check_iwv_2d, crh=check_crh,
-              crh2d=check_crh_2d, p2h=check_p2h, isa=check_isa_level,
+CHECKS = dict(iwv=check_iwv, iwvnd=check_iwv_nd, crh=check_crh,
+              crhnd=check_crh_nd, p2h=check_p2h, isa=check_isa_level,
               isa_default=check_isa_default,
               isa_between=check_isa_default_between,
               isothermal=check_isothermal, refine=check_iwv_refinement)
@@ -522,10 +590,12 @@ def shards(tier):
 
 
 def layouts(nprofiles):
-    for block in range(-(-nprofiles // 3)):
-        for pos in (0, 1):
-            for negative in (False, True):
-                yield block, pos, negative
+    for rank in (2, 3):
+        for block in range(-(-nprofiles // NCOL[rank])):
+            for pos in range(rank):
+                for negative in (False, True):
+                    for pform in P_FORMS:
+                        yield rank, block, pos, negative, pform
 
 
 def cases(shard):
@@ -540,22 +610,23 @@ def cases(shard):
         for kind in ("linear", "log"):
             yield "isa_between", (kind,), True
             for t0 in T_P2H:
-                yield "isothermal", (t0, kind), True
+                for tform in T_FORMS:
+                    yield "isothermal", (t0, kind, tform), True
     elif part == "iwv":
         idx = shard[3]
-        profiles = list(itertools.product(VMR, repeat=len(idx)))
+        profiles = iwv_profiles(len(idx))
         for vmr in profiles:
             yield "iwv", (idx, vmr), any(vmr)
-        for block, pos, negative in layouts(len(profiles)):
-            yield ("iwv2d", (idx, block, pos, negative),
-                   any(map(any, columns(profiles, block))))
+        for layout in layouts(len(profiles)):
+            yield ("iwvnd", (idx,) + layout, any(map(any, columns(
+                profiles, layout[1], NCOL[layout[0]]))))
     elif part == "crh":
         idx = shard[3]
-        profiles = list(itertools.product(T_CRH, repeat=len(idx)))
+        profiles = crh_profiles(len(idx))
         for temps in profiles:
             yield "crh", (idx, temps), True
-        for block, pos, negative in layouts(len(profiles)):
-            yield "crh2d", (idx, block, pos, negative), True
+        for layout in layouts(len(profiles)):
+            yield "crhnd", (idx,) + layout, True
     elif part == "p2h":
         for idx in itertools.combinations(range(len(P_NODES)), shard[3]):
             yield "p2h", (idx, None), len(idx) >= 3
